@@ -83,7 +83,15 @@ def poly_str(coefs):
     return ' + '.join(terms)
 
 
-def build(t):
+def build(t, refs=None):
+    """case tree -> real template.  A node {'ref': k} stands for the k-th object of a forest's pool: `refs(k)` returns
+    that (memoised) OBJECT, so the same sub-template object is shared by every template that refers to it."""
+    if 'ref' in t:
+        return refs(t['ref'])
+    return _build_node(t, lambda x: build(x, refs))
+
+
+def _build_node(t, build):
     import qupulse.pulses as qp
     from qupulse.pulses.multi_channel_pulse_template import ParallelChannelPulseTemplate
     from qupulse.pulses.arithmetic_pulse_template import ArithmeticPulseTemplate, ArithmeticAtomicPulseTemplate
@@ -240,7 +248,12 @@ def run_impl(case):
 
 def _run(case, np):
     params = {n: F(v) for n, v in case['params'].items()}
-    pt = build(case['pt'])
+    if 'forest' in case:
+        return _forest_run(case, params, np)[case['target']]
+    return _observe(build(case['pt']), params, case, np)
+
+
+def _observe(pt, params, case, np):
     chans = sorted(pt.defined_channels)
     integ, ini, fin = pt.integral, pt.initial_values, pt.final_values
     obs = {'chans': chans, 'sdur': _fj(_exact(pt.duration, params)), 'ch': {}}
@@ -294,6 +307,91 @@ def _run(case, np):
 
 def _fj(x):
     return None if x is None else vlib.frac_json(x)
+
+
+# ---------------------------------------------------------------------------------------------------------------------
+# aliasing / history stream: several templates built from SHARED sub-template objects, queried in a given order
+
+_FOREST_CACHE = {}
+QUERIES = ('integral', 'initial', 'final', 'duration', 'pad', 'program')
+
+
+def _query(pt, q, params, raw=None):
+    """one query of the history; the answer evaluated exactly at the parameters (JSON-able)"""
+    def ev_dict(d):
+        if raw is not None:
+            raw.append(d)
+        return {str(c): _fj(_exact(v, params)) for c, v in sorted(d.items(), key=lambda kv: str(kv[0]))}
+    if q == 'integral':
+        return ev_dict(pt.integral)
+    if q == 'initial':
+        return ev_dict(pt.initial_values)
+    if q == 'final':
+        return ev_dict(pt.final_values)
+    if q == 'duration':
+        return _fj(_exact(pt.duration, params))
+    if q == 'pad':          # pad_to queries duration and final_values and keeps the returned dictionary
+        d = _exact(pt.duration, params)
+        if d is None:
+            return None
+        padded = pt.pad_to('(%s)' % (d + 3))
+        return [ev_dict(padded.final_values), ev_dict(padded.integral), _fj(_exact(padded.duration, params))]
+    if q == 'program':
+        st, prog = _create(pt, params)
+        return st if st == 'err' or prog is None else _fj(vlib.to_fraction(prog.duration))
+    raise ValueError(q)
+
+
+def _forest_run(case, params, np):
+    """Builds the forest ONCE (pool objects shared between the roots), replays the query history on the shared objects,
+    observes every root afterwards (exactly as a single-template case is observed) and compares every answer of the
+    history - and every dictionary handed out earlier, re-read at the end - with the answer of a freshly built, unshared
+    copy of the same root queried once.  Returns one observation per root."""
+    f = case['forest']
+    key = json.dumps([f, case['params'], case.get('pad')], sort_keys=True)
+    if key in _FOREST_CACHE:
+        return _FOREST_CACHE[key]
+    pool, objs = f['pool'], {}
+
+    def get(k):
+        if k not in objs:
+            objs[k] = build(pool[k], get)
+        return objs[k]
+    roots = [get(k) for k in f['roots']]
+    log, held = [], []
+    for j, q in f['history']:
+        raw = []
+        ans = _query(roots[j], q, params, raw)
+        log.append((j, q, ans))
+        if q in ('integral', 'initial', 'final'):
+            held.append((j, q, raw[0], ans))
+    obs = [_observe(r, params, case, np) for r in roots]
+    mism = [[] for _ in roots]
+    fresh = {}
+    for j, k in enumerate(f['roots']):
+        tree = G.expand(pool[k], pool)
+        for q in QUERIES:
+            if q == 'program' and not any(h[1] == 'program' and h[0] == j for h in f['history']):
+                continue
+            fresh[j, q] = _query(build(tree), q, params)       # a fresh, unshared object per query
+        o = obs[j]
+        post = {'integral': {c: o['ch'][c]['sint'] for c in o['chans']}, 'initial': {c: o['ch'][c]['sini'] for c in o['chans']},
+                'final': {c: o['ch'][c]['sfin'] for c in o['chans']}, 'duration': o['sdur']}
+        for q, a in post.items():
+            if a != fresh[j, q]:
+                mism[j].append('after the history %s = %s, on a freshly built equal template %s' % (q, a, fresh[j, q]))
+    for step, (j, q, ans) in enumerate(log):
+        if ans != fresh[j, q]:
+            mism[j].append('history step %d: %s = %s, on a freshly built equal template %s' % (step, q, ans, fresh[j, q]))
+    for j, q, d, ans in held:
+        again = {str(c): _fj(_exact(v, params)) for c, v in sorted(d.items(), key=lambda kv: str(kv[0]))}
+        if again != ans:
+            mism[j].append('the %s dictionary handed out earlier changed afterwards: %s -> %s' % (q, ans, again))
+    for j, o in enumerate(obs):
+        o['hist_mismatch'] = mism[j][:4]
+    _FOREST_CACHE.clear()            # keep one forest
+    _FOREST_CACHE[key] = obs
+    return obs
 
 
 # ---------------------------------------------------------------------------------------------------------------------
@@ -362,7 +460,9 @@ def names_of(case):
             walk(t['l']); walk(t['r'])
     walk(case['pt'])
     names.discard('t')
-    return {n: i + 1 for i, n in enumerate(sorted(names))}
+    nm = {n: i + 1 for i, n in enumerate(sorted(names))}
+    nm['t'] = 0           # a parameter / loop index that is called t IS the model's time variable (as in sympy)
+    return nm
 
 
 BIN = {'+': 'EAdd', '-': 'ESub', '*': 'EMul', '/': 'EDiv'}
@@ -513,6 +613,8 @@ def histogram_keys(case, obs):
 
 
 def classify(case, obs):
+    if obs.get('hist_mismatch'):
+        return None             # a history dependent answer is never explained by a known finding
     return G.classify(case, obs)
 
 
@@ -537,6 +639,10 @@ def py_property(case, obs):
     """The part of the property that needs no denotation: symbolic == real integral / value at 0 / padded samples."""
     if 'crash' in obs or 'hang' in obs:
         return 'implementation crashed: %s' % obs
+    if obs.get('hist_mismatch'):
+        # the aliasing / history stream: an answer depended on which other template sharing a sub-template object had
+        # been queried before (or on how often) - the symbolic quantities are functions of the template alone
+        return 'history dependence: ' + '; '.join(obs['hist_mismatch'][:2])
     if obs['real'] == 'err':
         return None
     for c in obs['chans']:
